@@ -125,7 +125,7 @@ func cmdRun(argv []string) int {
 	sort.Strings(pkgDirs)
 
 	ev := newEvidence(*prop, *tier, seed)
-	ev.debug = *casesOv != "" || *only != ""
+	ev.debug = *casesOv != "" || *only != "" || filepath.Clean(*repo) != "/repo"
 	w, err := loadWorld(*repo, *verif, pkgDirs)
 	if err != nil {
 		// the harness overlay does not type-check against the tree (or the tree is broken): inconclusive
